@@ -198,3 +198,7 @@ func checkBuiltInTable() error {
 	})
 	return builtinCheck.err
 }
+
+func refReserved(s string) bool { return ref.Reserved[s] }
+
+func sortStringsInPlace(xs []string) { sort.Strings(xs) }
